@@ -6,7 +6,7 @@ BASE_OFF = "cd /repo && GOFLAGS=-mod=mod GOPROXY=off GOSUMDB=off GOTOOLCHAIN=loc
 
 claimed = {
  "C18": dict(cat="exploration", ref="DESIGN.md §4 C18",
-   text="Seeded search over interleavings of 2-5 simulated caller goroutines sharing read-only operands, with a simulated sync.Pool (stale/garbage/poisoned/emptied buffers) and lowered tuning knobs; memory monitors at every statement boundary show no operand, no foreign receiver and no package-level variable is written, pool ownership discipline shows scratch buffers are written only by their holder, and every result equals the sequential one. Sampling, not proof.",
+   text="Seeded search over interleavings of 2-5 simulated caller goroutines sharing read-only operands, with a simulated sync.Pool (stale/garbage/poisoned/emptied buffers) and lowered tuning knobs; memory monitors at every statement boundary show no operand, no foreign receiver and no package-level variable is written, pool and scratch-buffer ownership discipline (getDec/putDec wrapped whatever implements them) shows scratch buffers are held and written by one task at a time, and every result equals the sequential one. sync.Mutex/RWMutex/Once introduced by a change are simulated (lock operations and sync/atomic statements are preferred switch points); package-level state is reset between scenarios so that lazily built caches start cold. Sampling, not proof.",
    note="Trusted: the instrumenter (yield insertion is add-only and keeps the library's semantics), the token-passing scheduler, Go's memory model for channel hand-off. Stubbed: real sync.Pool, Go scheduler, true parallelism (sub-statement torn reads are unreachable). Arithmetic correctness of one sequential execution is assumed.",
    tech="deterministic simulation: seeded cooperative scheduler over statement-level yield points + simulated sync.Pool with fault injection; sequential-equivalence oracle and memory monitors"),
 }
